@@ -169,15 +169,21 @@ def v2_decode(packet: bytes) -> V2Packet:
                     signature=packet[-16:], frame=frame)
 
 
-def v2_split_stream(buf: bytearray) -> list[bytes]:
-    """Device-side reassembly of a V2 byte stream: returns complete packets, leaves rest in buf."""
+def v2_split_stream(buf: bytearray, garbage: Optional[list] = None) -> list[bytes]:
+    """Device-side reassembly of a V2 byte stream: returns complete packets, leaves rest in buf.
+    Bytes that cannot belong to a packet are appended to ``garbage`` (if given)."""
     out = []
     while True:
         i = buf.find(b"\x5a\x5a")
         if i < 0:
-            buf.clear()
+            keep = 1 if buf and buf[-1] == 0x5A else 0
+            if garbage is not None and len(buf) > keep:
+                garbage.append(bytes(buf[:len(buf) - keep]))
+            del buf[:len(buf) - keep]
             return out
         if i:
+            if garbage is not None:
+                garbage.append(bytes(buf[:i]))
             del buf[:i]
         if len(buf) < 6:
             return out
@@ -215,18 +221,20 @@ def v3_header(size: int, pad: int, ptype: int) -> bytes:
     return b"\x83\x70" + bytes([(size >> 8) & 0xFF, size & 0xFF, 0x20, ((pad & 0xF) << 4) | (ptype & 0xF)])
 
 
-def v3_split_stream(buf: bytearray) -> list[bytes]:
+def v3_split_stream(buf: bytearray, garbage: Optional[list] = None) -> list[bytes]:
     out = []
     while True:
         i = buf.find(b"\x83\x70")
         if i < 0:
             # keep a possible first marker byte
-            if buf and buf[-1] == 0x83:
-                del buf[:-1]
-            else:
-                buf.clear()
+            keep = 1 if buf and buf[-1] == 0x83 else 0
+            if garbage is not None and len(buf) > keep:
+                garbage.append(bytes(buf[:len(buf) - keep]))
+            del buf[:len(buf) - keep]
             return out
         if i:
+            if garbage is not None:
+                garbage.append(bytes(buf[:i]))
             del buf[:i]
         if len(buf) < 6:
             return out
